@@ -10,9 +10,11 @@ def registry():
     for mod in ("checks_conc", "checks_fs", "checks_verifier", "checks_migrate", "checks_corrupt", "checks_misc"):
         try:
             m = __import__(mod)
-            reg.update(m.CHECKS)
+            reg.update(getattr(m, "CHECKS", {}))
         except ImportError:
             pass
+        except Exception as e:   # a broken module must not take the other checks down
+            log("module %s failed to load: %r" % (mod, e))
     return reg
 
 
